@@ -160,10 +160,11 @@ def renderParts (parts : List Part) : String :=
     | .par k l => "{" ++ (if wildK k then "*" else "") ++ bytesToString l.name ++
         (if consK k then ":" ++ bytesToString l.cons else "") ++ "}"))
 
-/-- C15 is checked on drawings whose labels cannot be confused with the drawing's own syntax -/
+/-- C15 is checked on drawings whose labels cannot be confused with the drawing's own syntax (blanks in literal text are
+fine: a line is glyphs, one blank, the label, and optionally " [*]") -/
 def drawable (parts : List Part) : Bool :=
   parts.all (fun p => match p with
-    | .stat b => b.all (fun c => c > 32 && c < 127 && c != 123 && c != 125 && c != 91 && c != 93)
+    | .stat b => b.all (fun c => c ≥ 32 && c < 127 && c != 123 && c != 125 && c != 91 && c != 93)
     | .par _ l => (l.name ++ l.cons).all (fun c => c > 32 && c < 127))
 
 def classOf (op : Op) : String :=
